@@ -83,6 +83,13 @@ CLAIMED = {
         ref='DESIGN.md §6 C16',
         note=TRUST + 'Identifiers are concrete strings (fresh / taken / malformed); immutability is checked on deposits, swaps and withdrawals via the reserve-only '
              'post-conditions of C02/C04.'),
+    'C17': dict(
+        text='Relational step obligations through the public messages on two funded pools sharing a denom, the three switches of one pool symbolic (all 8 '
+             'combinations): each way of swapping / depositing / withdrawing on that pool (direct swap, routed hop in either position, two-asset deposit, single-asset '
+             'deposit through the sub-message + reply chain, withdrawal) is rejected when its switch is off; otherwise outcome, balances and reserves equal a second '
+             'execution with every switch on (non-interference), also for the other pool. Toggle writes only the named pool.',
+        ref='DESIGN.md §6 C17',
+        note=TRUST + 'Routes use the pricing kernel as an uninterpreted function (glue only); the other operations run the real kernel and are replayable.'),
     'C18': dict(
         text='Bounded symbolic execution of the real MIR of query_current_epoch / query_epoch with genesis, duration, block time and epoch id as '
              'unconstrained 64-bit symbols; every feasible path is decided by z3 (unsat of pre ∧ path ∧ ¬post). Full u64 ranges, no loop, so the only '
